@@ -971,6 +971,10 @@ class _MatchDesugar(ast.NodeTransformer):
         cp = lambda: copy.deepcopy(subj)    # noqa: E731
         if isinstance(pat, ast.MatchValue):
             return ast.Compare(left=cp(), ops=[ast.Eq()], comparators=[pat.value])
+        if isinstance(pat, ast.MatchSingleton) and pat.value in (True, False) and isinstance(subj, ast.Compare) \
+                and all(isinstance(o, (ast.Is, ast.IsNot)) for o in subj.ops):
+            # an identity test is a bool: `(x is None) is True` is `x is None`, `... is False` its negation
+            return cp() if pat.value is True else ast.UnaryOp(op=ast.Not(), operand=cp())
         if isinstance(pat, ast.MatchSingleton):
             return ast.Compare(left=cp(), ops=[ast.Is()], comparators=[ast.Constant(value=pat.value)])
         if isinstance(pat, ast.MatchOr):
@@ -1012,7 +1016,7 @@ class _MatchDesugar(ast.NodeTransformer):
         self.generic_visit(node)
         pre: List[ast.stmt] = []
         subj = node.subject
-        simple = _simple(subj) or (isinstance(subj, (ast.Tuple, ast.List)) and all(_simple(e) for e in subj.elts))
+        simple = _simple(subj) or (isinstance(subj, (ast.Tuple, ast.List)) and all(_simple(e) or _is_pure_test(e) for e in subj.elts))
         if not simple:
             _MatchDesugar.counter += 1
             nm = f"__match_subject{_MatchDesugar.counter}"
@@ -1111,6 +1115,43 @@ class _MapOverDisplay(ast.NodeTransformer):
             calls = [ast.Call(func=copy.deepcopy(v.args[0]), args=[copy.deepcopy(a.elts[i]) for a in v.args[1:]], keywords=[]) for i in range(n)]
             node.value = ast.copy_location(ast.Tuple(elts=calls, ctx=ast.Load()), v)
             ast.fix_missing_locations(node)
+        return node
+
+
+class _ItertoolsForms(ast.NodeTransformer):
+    """`itertools.chain(a, b)` consumed whole by max / min / sum / list / tuple / sorted / any / all / set is the display `[*a, *b]`
+    (displays among the arguments are spliced in); `itertools.compress(data, selectors)` is `(d for d, s in zip(data, selectors) if s)`."""
+    CONSUMERS = ("max", "min", "sum", "list", "tuple", "sorted", "any", "all", "set", "frozenset")
+    counter = 0
+
+    @staticmethod
+    def _is(call, name):
+        f = call.func
+        return (isinstance(f, ast.Name) and f.id == name) or (isinstance(f, ast.Attribute) and f.attr == name and isinstance(f.value, ast.Name) and f.value.id == "itertools")
+
+    def visit_Call(self, node):
+        self.generic_visit(node)
+        if isinstance(node.func, ast.Name) and node.func.id in self.CONSUMERS and len(node.args) >= 1 and isinstance(node.args[0], ast.Call) \
+                and self._is(node.args[0], "chain") and node.args[0].args and not node.args[0].keywords \
+                and not any(isinstance(a, ast.Starred) for a in node.args[0].args):
+            elts = []
+            for a in node.args[0].args:
+                if isinstance(a, (ast.Tuple, ast.List)):
+                    elts.extend(a.elts)
+                else:
+                    elts.append(ast.Starred(value=a, ctx=ast.Load()))
+            node.args[0] = ast.copy_location(ast.List(elts=elts, ctx=ast.Load()), node.args[0])
+            ast.fix_missing_locations(node)
+            return node
+        if self._is(node, "compress") and len(node.args) == 2 and not node.keywords:
+            _ItertoolsForms.counter += 1
+            d, s_ = f"_cd{_ItertoolsForms.counter}", f"_cs{_ItertoolsForms.counter}"
+            g = ast.GeneratorExp(elt=ast.Name(id=d, ctx=ast.Load()), generators=[ast.comprehension(
+                target=ast.Tuple(elts=[ast.Name(id=d, ctx=ast.Store()), ast.Name(id=s_, ctx=ast.Store())], ctx=ast.Store()),
+                iter=ast.Call(func=ast.Name(id="zip", ctx=ast.Load()), args=list(node.args), keywords=[]), ifs=[ast.Name(id=s_, ctx=ast.Load())], is_async=0)])
+            ast.copy_location(g, node)
+            ast.fix_missing_locations(g)
+            return g
         return node
 
 
@@ -1715,12 +1756,21 @@ def desugar_match(trees: Dict[str, ast.Module]) -> int:
                 ast.fix_missing_locations(tree)
             if _desugar_bool_stores(fn):
                 ast.fix_missing_locations(tree)
+        tables = {st.targets[0].id: st.value for st in tree.body if isinstance(st, ast.Assign) and len(st.targets) == 1 and isinstance(st.targets[0], ast.Name)
+                  and isinstance(st.value, ast.Dict) and st.value.keys and all(k is not None and _bool_key(k) is not None for k in st.value.keys)}
+        if tables or any(isinstance(x, ast.Dict) and x.keys and all(k is not None and _bool_key(k) is not None for k in x.keys) for x in ast.walk(tree)):
+            for fn in [x for x in ast.walk(tree) if isinstance(x, (ast.FunctionDef, ast.AsyncFunctionDef))]:
+                if _desugar_truth_tables(fn, tables):
+                    ast.fix_missing_locations(tree)
         if any(isinstance(x, ast.Attribute) and x.attr == "count" and isinstance(x.value, ast.Name) and x.value.id == "itertools" for x in ast.walk(tree)):
             for fn in [x for x in ast.walk(tree) if isinstance(x, (ast.FunctionDef, ast.AsyncFunctionDef))]:
                 if _desugar_count_iterators(fn):
                     ast.fix_missing_locations(tree)
         if any(isinstance(x, ast.Call) and isinstance(x.func, ast.Name) and x.func.id == "map" for x in ast.walk(tree)):
             _MapOverDisplay().visit(tree)
+        if any(isinstance(x, (ast.Name, ast.Attribute)) and getattr(x, "id", getattr(x, "attr", "")) in ("chain", "compress") for x in ast.walk(tree)):
+            _ItertoolsForms().visit(tree)
+            ast.fix_missing_locations(tree)
         if any(isinstance(x, ast.Match) for x in ast.walk(tree)):
             _MatchDesugar().visit(tree)
             ast.fix_missing_locations(tree)
@@ -1803,6 +1853,25 @@ def desugar_namedtuples(trees: Dict[str, ast.Module], baseline: Optional[Set[str
                             and st.value.func.value.id in typed and stores.get(st.targets[0].id) == 1 and st.targets[0].id not in typed \
                             and st.targets[0].id not in {a.arg for a in fn.args.args + fn.args.kwonlyargs}:
                         typed[st.targets[0].id] = typed[st.value.func.value.id]
+                        grew = True
+                # a local bound several times, every time to a record of one type (constructor, `_replace` of one, another such local)
+                params_ = {a.arg for a in fn.args.args + fn.args.kwonlyargs + fn.args.posonlyargs}
+                by_name: Dict[str, List[Optional[str]]] = {}
+                for st in ast.walk(fn):
+                    if isinstance(st, ast.Assign) and len(st.targets) == 1 and isinstance(st.targets[0], ast.Name):
+                        v_ = st.value
+                        kind_ = None
+                        if isinstance(v_, ast.Call) and isinstance(v_.func, ast.Name) and v_.func.id in records:
+                            kind_ = v_.func.id
+                        elif isinstance(v_, ast.Call) and isinstance(v_.func, ast.Attribute) and v_.func.attr == "_replace" and isinstance(v_.func.value, ast.Name) \
+                                and v_.func.value.id in typed:
+                            kind_ = typed[v_.func.value.id]
+                        elif isinstance(v_, ast.Name) and v_.id in typed:
+                            kind_ = typed[v_.id]
+                        by_name.setdefault(st.targets[0].id, []).append(kind_)
+                for nm_, kinds_ in by_name.items():
+                    if nm_ not in typed and nm_ not in params_ and len(kinds_) == stores.get(nm_) and None not in kinds_ and len(set(kinds_)) == 1:
+                        typed[nm_] = kinds_[0]
                         grew = True
 
             class Fix(ast.NodeTransformer):
@@ -2129,6 +2198,8 @@ def desugar_after_inlining(trees: Dict[str, ast.Module]) -> int:
             n += _propagate_attr_aliases(fn)
         for fn in fns:
             n += _return_temporaries(fn)
+        for fn in fns:
+            n += _fuse_comprehension_loops(fn)
         src_has = any(isinstance(x, (ast.Name, ast.Attribute)) and getattr(x, "id", getattr(x, "attr", "")) in ("methodcaller", "getattr") for x in ast.walk(tree))
         if not src_has:
             continue
@@ -2200,9 +2271,30 @@ def _copy_once(fn: ast.AST, pinned: Set[str]) -> bool:
             if not (isinstance(st, ast.Assign) and len(st.targets) == 1 and isinstance(st.targets[0], ast.Name) and isinstance(st.value, ast.Name)):
                 continue
             x, y = st.targets[0].id, st.value.id
-            if x == y or x in pinned or x in args or x in scoped or y in scoped or id(st) not in pos or guarded.get(id(st), True):
+            if x == y or x in scoped or y in scoped or id(st) not in pos:
                 continue
             i1 = pos[id(st)]
+            # (1) x is bound once, never read before, y is not bound afterwards: x is y (also inside a loop body or a try block: every
+            #     pass binds y before it reaches this statement)
+            if x not in pinned and x not in args and stores.get(x) == [i1] and not any(i > i1 for i in stores.get(y, [])) \
+                    and not any(n.id == x and i < i1 for n, i in names):
+                for n, _i in names:
+                    if n.id == x and isinstance(n.ctx, ast.Load):
+                        n.id = y
+                block.pop(bi)
+                return True
+            if guarded.get(id(st), True):
+                continue
+            # (4) a new local y that ends its life being handed to x, with x unknown before: y was x all along
+            if y not in pinned and y not in args and x not in args and not any(n.id == y and i > i1 for n, i in names) \
+                    and not any(n.id == x and i < i1 for n, i in names) and sum(1 for n, i in names if n.id == y and i == i1) == 1:
+                for n, _i in names:
+                    if n.id == y:
+                        n.id = x
+                block.pop(bi)
+                return True
+            if x in pinned or x in args:
+                continue
             # (1) x is bound once, y is not bound afterwards: x is y
             if stores.get(x) == [i1] and not any(i > i1 for i in stores.get(y, [])):
                 for n, _i in names:
@@ -2311,6 +2403,9 @@ def coalesce_copies(trees: Dict[str, ast.Module]) -> int:
                 if not (_copy_once(fn, pinned) or _takeover_once(fn, pinned)):
                     break
                 n += 1
+            if n and any(isinstance(x, (ast.Attribute, ast.Name)) and getattr(x, "attr", getattr(x, "id", "")) == "partial" for x in ast.walk(fn)):
+                if _desugar_partial(fn):
+                    ast.fix_missing_locations(fn)
     return n
 
 
@@ -2365,4 +2460,291 @@ def positionalise_calls(trees: Dict[str, ast.Module]) -> int:
             c.args = list(c.args) + [kws[p].value for p in need]
             c.keywords = [kw for kw in c.keywords if kw.arg not in need]
             n += 1
+    return n
+
+
+# ------------------------------------------------------------------------------------------- truth tables as dictionaries
+def _bool_key(k: ast.AST) -> Optional[Tuple[bool, ...]]:
+    if isinstance(k, ast.Constant) and isinstance(k.value, bool):
+        return (k.value,)
+    if isinstance(k, ast.Tuple) and k.elts and all(isinstance(e, ast.Constant) and isinstance(e.value, bool) for e in k.elts):
+        return tuple(e.value for e in k.elts)
+    return None
+
+
+def _desugar_truth_tables(fn: ast.AST, tables: Dict[str, ast.Dict]) -> int:
+    """`t = TABLE.get((p, q))` / `TABLE[(p, q)]` where TABLE is a new dictionary display keyed by tuples of True / False and p, q are
+    side-effect-free tests is an if / elif ladder over the rows (the rows exclude one another).  While t and the names the tests
+    read keep their values, `t is None`, `t == <row value>` and `{<row value>: e, ...}[t]` are decided by the same tests."""
+    n = 0
+    for block in list(_blocks_of(fn)):
+        i = 0
+        while i < len(block):
+            st = block[i]
+            i += 1
+            if not (isinstance(st, ast.Assign) and len(st.targets) == 1 and isinstance(st.targets[0], ast.Name)):
+                continue
+            t, v = st.targets[0].id, st.value
+            d = key = None
+            dflt: Optional[ast.AST] = None
+            strict = False
+            if isinstance(v, ast.Call) and isinstance(v.func, ast.Attribute) and v.func.attr == "get" and 1 <= len(v.args) <= 2 and not v.keywords:
+                d, key = v.func.value, v.args[0]
+                dflt = v.args[1] if len(v.args) == 2 else ast.Constant(value=None)
+            elif isinstance(v, ast.Subscript):
+                d, key, strict = v.value, v.slice, True
+            if isinstance(d, ast.Name):
+                d = tables.get(d.id)
+            if not isinstance(d, ast.Dict) or not d.keys or any(k is None for k in d.keys):
+                continue
+            rows = [(_bool_key(k), val) for k, val in zip(d.keys, d.values)]
+            if any(k is None for k, _ in rows) or len({len(k) for k, _ in rows}) != 1 or len({k for k, _ in rows}) != len(rows):
+                continue
+            width = len(rows[0][0])
+            tests = list(key.elts) if isinstance(key, ast.Tuple) else [key]
+            if len(tests) != width or not all(_is_pure_test(e) for e in tests):
+                continue
+            if strict and len(rows) != 2 ** width:
+                continue
+            if dflt is not None and not isinstance(dflt, ast.Constant):
+                continue
+
+            def cond(k):
+                parts = [copy.deepcopy(e) if b else ast.UnaryOp(op=ast.Not(), operand=copy.deepcopy(e)) for e, b in zip(tests, k)]
+                return parts[0] if len(parts) == 1 else ast.BoolOp(op=ast.And(), values=parts)
+            conds = [(cond(k), val) for k, val in rows]
+
+            def ladder(target: str, pairs, final: List[ast.stmt]) -> ast.stmt:
+                top = cur = None
+                for c, val in pairs:
+                    new = ast.If(test=copy.deepcopy(c), body=[ast.Assign(targets=[ast.Name(id=target, ctx=ast.Store())], value=copy.deepcopy(val))], orelse=[])
+                    if top is None:
+                        top = cur = new
+                    else:
+                        cur.orelse = [new]
+                        cur = new
+                cur.orelse = final
+                return top
+            final = [] if strict else [ast.Assign(targets=[ast.Name(id=t, ctx=ast.Store())], value=dflt)]
+            if strict:
+                last_c, last_v = conds[-1]
+                new_st = ladder(t, conds[:-1], [ast.Assign(targets=[ast.Name(id=t, ctx=ast.Store())], value=copy.deepcopy(last_v))])
+            else:
+                new_st = ladder(t, conds, final)
+            ast.copy_location(new_st, st)
+            block[i - 1] = new_st
+            n += 1
+            # ---- later reads of t in this block, while nothing the tests read is rebound
+            consts = all(isinstance(val, ast.Constant) for _c, val in conds) and len({repr(val.value) for _c, val in conds}) == len(conds)
+            if not consts:
+                continue
+            frozen = {x.id for e in tests for x in ast.walk(e) if isinstance(x, ast.Name)} | {t}
+            none_rows = [c for c, val in conds if val.value is None]
+            dflt_none = (not strict) and dflt.value is None
+            nothing = ast.UnaryOp(op=ast.Not(), operand=ast.BoolOp(op=ast.Or(), values=[copy.deepcopy(c) for c, _v in conds])) if len(conds) > 1 else \
+                ast.UnaryOp(op=ast.Not(), operand=copy.deepcopy(conds[0][0]))
+
+            def is_none_test() -> Optional[ast.AST]:
+                parts = [copy.deepcopy(c) for c in none_rows] + ([nothing] if dflt_none else [])
+                if not parts:
+                    return ast.Constant(value=False)
+                return parts[0] if len(parts) == 1 else ast.BoolOp(op=ast.Or(), values=parts)
+
+            class _Reads(ast.NodeTransformer):
+                def visit_Compare(self, node):
+                    self.generic_visit(node)
+                    if len(node.ops) == 1 and isinstance(node.left, ast.Name) and node.left.id == t and isinstance(node.comparators[0], ast.Constant):
+                        c0, op = node.comparators[0], node.ops[0]
+                        if c0.value is None and isinstance(op, (ast.Is, ast.IsNot, ast.Eq, ast.NotEq)):
+                            r = is_none_test()
+                            return r if isinstance(op, (ast.Is, ast.Eq)) else ast.UnaryOp(op=ast.Not(), operand=r)
+                        if isinstance(op, (ast.Eq, ast.NotEq)) and isinstance(c0.value, (str, int)) and not isinstance(c0.value, bool):
+                            hit = [c for c, val in conds if type(val.value) is type(c0.value) and val.value == c0.value]
+                            if len(hit) == 1 and not (not strict and dflt.value == c0.value):
+                                r = copy.deepcopy(hit[0])
+                                return r if isinstance(op, ast.Eq) else ast.UnaryOp(op=ast.Not(), operand=r)
+                    return node
+            for j in range(i, len(block)):
+                s2 = block[j]
+                if isinstance(s2, ast.Assign) and len(s2.targets) == 1 and isinstance(s2.targets[0], ast.Name) and isinstance(s2.value, ast.Subscript) \
+                        and isinstance(s2.value.slice, ast.Name) and s2.value.slice.id == t and isinstance(s2.value.value, ast.Dict) \
+                        and all(isinstance(k, ast.Constant) for k in s2.value.value.keys) and s2.targets[0].id not in frozen:
+                    byval = {repr(k.value): val for k, val in zip(s2.value.value.keys, s2.value.value.values)}
+                    pairs = [(c, byval[repr(val.value)]) for c, val in conds if repr(val.value) in byval]
+                    if pairs:
+                        miss = ast.Raise(exc=ast.Call(func=ast.Name(id="KeyError", ctx=ast.Load()), args=[ast.Name(id=t, ctx=ast.Load())], keywords=[]), cause=None)
+                        block[j] = ast.copy_location(ladder(s2.targets[0].id, pairs, [miss]), s2)
+                        n += 1
+                        continue
+                _Reads().visit(s2)
+                stored = {x.id for x in ast.walk(s2) if isinstance(x, ast.Name) and isinstance(x.ctx, (ast.Store, ast.Del))}
+                if stored & frozen:
+                    break
+            ast.fix_missing_locations(fn)
+    return n
+
+
+# ----------------------------------------------------------------------------------- loops over a comprehension's values
+def _fuse_comprehension_loops(fn: ast.AST) -> int:
+    """`for x in [E(y) for y in S]: body` is `for y in S: x = E(y); body` when the body only works on local names (it cannot change
+    what E reads, so computing the E(y) one by one instead of all at once gives the same values in the same order)."""
+    n = 0
+    for block in list(_blocks_of(fn)):
+        for i, st in enumerate(block):
+            if not (isinstance(st, ast.For) and not st.orelse and isinstance(st.target, ast.Name)):
+                continue
+            drop = None
+            if isinstance(st.iter, ast.Name):
+                # a local bound once, in this block, to a comprehension and read only here
+                nm = st.iter.id
+                stores = [x for x in ast.walk(fn) if isinstance(x, ast.Name) and x.id == nm and isinstance(x.ctx, (ast.Store, ast.Del))]
+                loads = [x for x in ast.walk(fn) if isinstance(x, ast.Name) and x.id == nm and isinstance(x.ctx, ast.Load)]
+                defs = [(j, d) for j, d in enumerate(block[:i]) if isinstance(d, ast.Assign) and len(d.targets) == 1 and isinstance(d.targets[0], ast.Name)
+                        and d.targets[0].id == nm and isinstance(d.value, (ast.ListComp, ast.GeneratorExp))]
+                if len(stores) != 1 or len(loads) != 1 or len(defs) != 1:
+                    continue
+                j, d = defs[0]
+                creads = {x.id for x in ast.walk(d.value) if isinstance(x, ast.Name) and isinstance(x.ctx, ast.Load)}
+                between = {x.id for b in block[j + 1:i] for x in ast.walk(b) if isinstance(x, ast.Name) and isinstance(x.ctx, (ast.Store, ast.Del))}
+                if creads & between or any(isinstance(x, (ast.Attribute, ast.Subscript)) and isinstance(x.ctx, (ast.Store, ast.Del)) for b in block[j + 1:i] for x in ast.walk(b)):
+                    continue
+                drop = d
+                comp = d.value
+            elif isinstance(st.iter, (ast.ListComp, ast.GeneratorExp)):
+                comp = st.iter
+            else:
+                continue
+            if len(comp.generators) != 1 or comp.generators[0].is_async:
+                continue
+            g = comp.generators[0]
+            if any(isinstance(x, (ast.Attribute, ast.Subscript)) and isinstance(x.ctx, (ast.Store, ast.Del)) for b in st.body for x in ast.walk(b)):
+                continue
+            if any(isinstance(x, (ast.Break, ast.Return, ast.Yield, ast.YieldFrom, ast.Global, ast.Nonlocal)) for b in st.body for x in ast.walk(b)):
+                continue
+            stored = {x.id for b in st.body for x in ast.walk(b) if isinstance(x, ast.Name) and isinstance(x.ctx, (ast.Store, ast.Del))} | {st.target.id}
+            reads = {x.id for x in ast.walk(comp) if isinstance(x, ast.Name) and isinstance(x.ctx, ast.Load)}
+            inner = {x.id for x in ast.walk(g.target) if isinstance(x, ast.Name)}
+            if stored & (reads | inner):
+                continue
+            used_after = any(isinstance(x, ast.Name) and x.id in inner for later in block[i + 1:] for x in ast.walk(later))
+            used_in_body = any(isinstance(x, ast.Name) and x.id in inner for b in st.body for x in ast.walk(b))
+            if used_after or used_in_body:
+                continue
+            bind = ast.copy_location(ast.Assign(targets=[ast.Name(id=st.target.id, ctx=ast.Store())], value=comp.elt), st)
+            body = [bind] + list(st.body)
+            for c in reversed(g.ifs):
+                body = [ast.copy_location(ast.If(test=c, body=body, orelse=[]), st)]
+            st.target, st.iter, st.body = g.target, g.iter, body
+            ast.fix_missing_locations(st)
+            n += 1
+            if drop is not None:
+                block.remove(drop)
+                return n + _fuse_comprehension_loops(fn)
+    return n
+
+
+# ------------------------------------------------------------------------------------------- first matching row of a table
+def desugar_first_match(trees: Dict[str, ast.Module]) -> int:
+    """`t = next((row for row in TABLE if test(row)), DEFAULT)` over a *new* literal table (a module-level tuple / list of rows that the
+    pinned tree does not have; rows are tuples or records) is the if / elif ladder that tries the rows in order: `if test(row0): t = row0
+    elif test(row1): t = row1 ... else: t = DEFAULT`."""
+    baseline = load_baseline()
+    if not baseline:
+        return 0
+    # record types (NamedTuple classes that only name positions) and new module-level constants, by bare name
+    fields: Dict[str, List[str]] = {}
+    consts: Dict[str, ast.AST] = {}
+    for m, tree in trees.items():
+        for st in tree.body:
+            if isinstance(st, ast.ClassDef) and any((isinstance(b, ast.Name) and b.id == "NamedTuple") or (isinstance(b, ast.Attribute) and b.attr == "NamedTuple") for b in st.bases) \
+                    and not any(b.startswith(f"{m}.{st.name}.") for b in baseline):
+                fl = [x.target.id for x in st.body if isinstance(x, ast.AnnAssign) and isinstance(x.target, ast.Name)]
+                if fl and all(isinstance(x, ast.AnnAssign) or (isinstance(x, ast.Expr) and isinstance(x.value, ast.Constant)) for x in st.body) \
+                        and not any(isinstance(x, ast.AnnAssign) and x.value is not None for x in st.body):
+                    fields[st.name] = fl
+            elif isinstance(st, ast.Assign) and len(st.targets) == 1 and isinstance(st.targets[0], ast.Name) and f"const:{m}.{st.targets[0].id}" not in baseline:
+                consts.setdefault(st.targets[0].id, st.value)
+
+    def row_of(e: ast.AST) -> Optional[Tuple[List[ast.AST], Optional[str]]]:
+        if isinstance(e, ast.Name) and e.id in consts:
+            e = consts[e.id]
+        if isinstance(e, (ast.Tuple, ast.List)) and not any(isinstance(x, ast.Starred) for x in e.elts):
+            return list(e.elts), None
+        if isinstance(e, ast.Call) and isinstance(e.func, ast.Name) and e.func.id in fields and not any(isinstance(a, ast.Starred) for a in e.args) \
+                and all(k.arg is not None for k in e.keywords):
+            fl = fields[e.func.id]
+            vals = dict(zip(fl, e.args))
+            for k in e.keywords:
+                if k.arg not in fl or k.arg in vals:
+                    return None
+                vals[k.arg] = k.value
+            if set(vals) != set(fl):
+                return None
+            return [vals[f_] for f_ in fl], e.func.id
+        return None
+    n = 0
+    for tree in trees.values():
+        if not any(isinstance(x, ast.Call) and isinstance(x.func, ast.Name) and x.func.id == "next" for x in ast.walk(tree)):
+            continue
+        for fn in [x for x in ast.walk(tree) if isinstance(x, (ast.FunctionDef, ast.AsyncFunctionDef))]:
+            for block in list(_blocks_of(fn)):
+                for i, st in enumerate(block):
+                    if not (isinstance(st, ast.Assign) and len(st.targets) == 1 and isinstance(st.value, ast.Call) and isinstance(st.value.func, ast.Name)
+                            and st.value.func.id == "next" and len(st.value.args) == 2 and not st.value.keywords and isinstance(st.value.args[0], ast.GeneratorExp)):
+                        continue
+                    g = st.value.args[0]
+                    if len(g.generators) != 1 or not isinstance(g.generators[0].target, ast.Name) or not (isinstance(g.elt, ast.Name) and g.elt.id == g.generators[0].target.id):
+                        continue
+                    var = g.generators[0].target.id
+                    table = g.generators[0].iter
+                    if isinstance(table, ast.Name) and table.id in consts:
+                        table = consts[table.id]
+                    if not isinstance(table, (ast.Tuple, ast.List)) or not table.elts or len(table.elts) > 24:
+                        continue
+                    rows = [row_of(e) for e in table.elts]
+                    dflt = row_of(st.value.args[1])
+                    if any(r is None for r in rows) or dflt is None or len({len(r[0]) for r in rows + [dflt]}) != 1:
+                        continue
+                    if not all(all(_lit_const(x) or (isinstance(x, ast.Call) and isinstance(x.func, ast.Name) and x.func.id == "float") for x in r[0]) for r in rows + [dflt]):
+                        continue
+                    tests = g.generators[0].ifs
+
+                    def bind(e: ast.AST, row) -> ast.AST:
+                        vals, rec = row
+
+                        class _B(ast.NodeTransformer):
+                            def visit_Attribute(self, node):
+                                if isinstance(node.value, ast.Name) and node.value.id == var and rec is not None and node.attr in fields[rec]:
+                                    return ast.copy_location(copy.deepcopy(vals[fields[rec].index(node.attr)]), node)
+                                return self.generic_visit(node)
+
+                            def visit_Subscript(self, node):
+                                if isinstance(node.value, ast.Name) and node.value.id == var and isinstance(node.slice, ast.Constant) and isinstance(node.slice.value, int) \
+                                        and -len(vals) <= node.slice.value < len(vals):
+                                    return ast.copy_location(copy.deepcopy(vals[node.slice.value]), node)
+                                return self.generic_visit(node)
+
+                            def visit_Name(self, node):
+                                if node.id == var:
+                                    return ast.copy_location(ast.Tuple(elts=[copy.deepcopy(v) for v in vals], ctx=ast.Load()), node)
+                                return node
+                        return _B().visit(copy.deepcopy(e))
+
+                    def assign(row) -> ast.stmt:
+                        return ast.Assign(targets=[copy.deepcopy(st.targets[0])], value=ast.Tuple(elts=[copy.deepcopy(v) for v in row[0]], ctx=ast.Load()))
+                    top = cur = None
+                    for r in rows:
+                        ts = [bind(t_, r) for t_ in tests]
+                        test = ast.Constant(value=True) if not ts else ts[0] if len(ts) == 1 else ast.BoolOp(op=ast.And(), values=ts)
+                        new = ast.If(test=test, body=[assign(r)], orelse=[])
+                        if top is None:
+                            top = cur = new
+                        else:
+                            cur.orelse = [new]
+                            cur = new
+                    cur.orelse = [assign(dflt)]
+                    ast.copy_location(top, st)
+                    ast.fix_missing_locations(top)
+                    block[i] = top
+                    n += 1
     return n
